@@ -6,6 +6,7 @@ package c19
 import (
 	"fmt"
 	"os"
+	"strings"
 	"time"
 
 	"verifharness/lib"
@@ -34,7 +35,7 @@ func clip(lines []string) []string {
 }
 
 func Run(c *lib.Ctx) {
-	c.Rule = "four families over random workflows (chain of 1–3 OneToOne nodes | OneToOne with out+error ports | OneToMany fan-out | ManyToOne join | diamond: the two outputs of a OneToMany node meeting again at one in-port (fan-in); in half of them out-ports get 1–2 further links, i.e. one out-port linked to 2–3 in-ports; 2/5 of the node actions are held back on harness gates) inside a real symbol.Table, 1–2 processes, schedules of source writes / releases of held actions / sink answers with 1–4 requests in flight per source and process (≤6 writes quick, ≤12 thorough; join workflows lock-step per source). frames: runtime.Agent attached through the table's load/unload hooks, Agent.Frames per port against Uniflow.Agent fed the harness's own packet-hook log and against the oracle (k-th request with k-th answer of the same port, also with several requests open on one port); 1/5 of the cases terminate process 0 in mid-flight (its frames are an observation only); non-trivial = ≥8 hook events, distinct by workflow+schedule. transparency: the same schedule run with and without the agent, every accepted-count / action entered / sink arrival / source response compared in order; non-trivial = ≥2 responses. open-exit: a process is terminated while its port is being opened (by an open hook running just before the agent's | at a verif yield point of Open | by a racing goroutine, 4–12 fresh processes), then ordinary requests of other processes, with/without agent, every agent call under a watchdog. breakpoints: real runtime.Debugger with (a) one breakpoint on a symbol's in-port, ≤3 packets (own process each) paused, every sequence over {packet, Pause, Step, RemoveBreakpoint, Debugger.Close, Breakpoint.Close} of length ≤2 (quick) / ≤4 (thorough) containing a remove/close plus random ones of length ≤7, and (b) 3–5 breakpoints in one debugger (one per symbol of 3–5 parallel chains), a packet paused on every one of them, then Pause/Step/extra packets, then Debugger.Close or RemoveBreakpoint in arbitrary order (some or all, optionally followed by Close), then one more packet per symbol (must pass: no leftover watcher); observations after every call (packets resumed, which calls returned with what) against the reachable states of the n-breakpoint Uniflow.Breakpoint under all schedules; non-trivial = ≥1 packet and ≥1 call"
+	c.Rule = "four families over random workflows (chain of 1–3 OneToOne nodes | OneToOne with out+error ports | OneToMany fan-out | ManyToOne join | diamond: the two outputs of a OneToMany node meeting again at one in-port (fan-in); in half of them out-ports get 1–2 further links, i.e. one out-port linked to 2–3 in-ports; 2/5 of the node actions are held back on harness gates) inside a real symbol.Table, 1–2 processes, schedules of source writes / releases of held actions / sink answers with 1–4 requests in flight per source and process (≤6 writes quick, ≤12 thorough; join workflows lock-step per source). frames: runtime.Agent attached through the table's load/unload hooks, Agent.Frames per port against Uniflow.Agent fed the harness's own packet-hook log and against the oracle (k-th request with k-th answer of the same port, also with several requests open on one port); 1/5 of the cases terminate process 0 in mid-flight (its frames are an observation only); non-trivial = ≥8 hook events, distinct by workflow+schedule. transparency: the same schedule run with and without the agent, every accepted-count / action entered / sink arrival / source response compared in order; non-trivial = ≥2 responses. open-exit: a process is terminated while its port is being opened (by an open hook running just before the agent's | at a verif yield point of Open | by a racing goroutine, 4–12 fresh processes), then ordinary requests of other processes, with/without agent, every agent call under a watchdog. breakpoints: real runtime.Debugger with (a) one breakpoint on a symbol's in-port, ≤3 packets (own process each) paused, every sequence over {packet, Pause, Step, RemoveBreakpoint, Debugger.Close, Breakpoint.Close} of length ≤2 (quick) / ≤4 (thorough) containing a remove/close plus random ones of length ≤7, and (b) 3–5 breakpoints in one debugger (one per symbol of 3–5 parallel chains), a packet paused on every one of them, then Pause/Step/extra packets, then Debugger.Close or RemoveBreakpoint in arbitrary order (some or all, optionally followed by Close), then one more packet per symbol (must pass: no leftover watcher); observations after every call (packets resumed, which calls returned with what) against the reachable states of the n-breakpoint Uniflow.Breakpoint under all schedules; non-trivial = ≥1 packet and ≥1 call. two debuggers on one agent (oracle-only, reference kept in harness/c19/shared.go): 2–3 breakpoints each owned by one of two debuggers sharing the agent, random sequences of packets, RemoveBreakpoint by the owner / by the other debugger / of nil / of a removed one, AddBreakpoint of duplicates, foreign, removed and closed breakpoints, agent.Unwatch / agent.Watch by hand, agent.Close, Debugger.Close, Breakpoint.Close, Pause / Step; every call result against the reference, every packet of a symbol must reach its sink once its breakpoint was removed by a debugger listing it / closed, a packet must be held while its breakpoint is listed by one debugger, watched and open"
 	c.Assumptions = []string{
 		"frames: packets, ports, symbols and processes are harness-assigned integers; the order of hook events fed to the model is the order in which the harness's own packet hooks (installed like the agent's, running just before them under the same endpoint lock) saw them; columns are compared per port (the order of frames of different ports in Agent.Frames depends on goroutine scheduling and is not compared), Agent.Frames is read only at quiescence",
 		"frames: the number of requests that passed a port comes from the harness's reference reading of the workflow (one per Write on an out-port whatever the number of its links, one per packet delivered to an in-port), not from the packet hooks: the oracle demands exactly one complete frame per request at quiescence, the model is fed one request and one answer event per request (a hook call beyond that is dropped and counted), and at the sources / sinks the answer of frame i must be the i-th response received / answer given, by identity",
@@ -75,6 +76,17 @@ func Run(c *lib.Ctx) {
 				c.Count(transparencyCase(c, cc.fs, cc.nsess, cc.ops, &fails))
 			case "bp":
 				corpusBP = append(corpusBP, cc.sc)
+			case "shared":
+				stir := false
+				for _, o := range cc.sops {
+					if strings.HasPrefix(o, "pause") || strings.HasPrefix(o, "step") {
+						stir = true
+					}
+				}
+				if sharedBroken {
+					continue
+				}
+				c.Count(slow(c, "shared (corpus)", func() string { return sharedCase(c, len(cc.owner), cc.owner, cc.sops, stir, &fails) }))
 			}
 		}
 	}
@@ -174,6 +186,19 @@ func Run(c *lib.Ctx) {
 	}
 
 	lap("breakpoints")
+	// (3b) two debuggers on one agent, the agent's watcher list used directly (oracle-only)
+	if !only {
+		srng := rng.Fork()
+		for i := 0; i < c.Scale(40, 500); i++ {
+			nb, owner, ops, stir := genSharedScenario(srng.Fork())
+			if sharedBroken {
+				c.Hit("shared-skipped-after-a-stuck-scenario")
+				continue
+			}
+			c.Count(slow(c, "shared "+strings.Join(ops, " "), func() string { return sharedCase(c, nb, owner, ops, stir, &fails) }))
+		}
+	}
+	lap("two debuggers / one agent")
 	var ms []lib.Mismatch
 	if c.Proof.DriverBuilt {
 		var err error
